@@ -185,9 +185,32 @@ def extract_replay(tlc_out, dest, tag="REPLAY"):
     return n
 
 
+class HarnessAborted(Exception):
+    """The code under test took the harness process down (stack overflow): not a tool error but an observation."""
+    def __init__(self, args, indices, text):
+        Exception.__init__(self, "zyconf %s aborted: stack overflow in the code under test" % args[0])
+        self.zargs, self.indices, self.text = list(args), indices, text
+
+
 def zyconf(args, timeout=3000, env=None, check=True):
-    p = sh([ZYCONF] + list(args), cwd=VERIF, timeout=timeout, env=env, check=False)
+    import shutil
+    inflight = os.path.join(WORK, "inflight", "%d_%s" % (os.getpid(), args[0]))
+    shutil.rmtree(inflight, ignore_errors=True)
+    os.makedirs(inflight)
+    e = dict(env or {})
+    e["ZYCONF_INFLIGHT"] = inflight
+    p = sh([ZYCONF] + list(args), cwd=VERIF, timeout=timeout, env=e, check=False)
+    indices = []
+    if p.returncode != 0:
+        for f in sorted(os.listdir(inflight)):
+            try:
+                indices.append(int(open(os.path.join(inflight, f)).read().strip()))
+            except ValueError:
+                pass
+    shutil.rmtree(inflight, ignore_errors=True)
     if check and p.returncode != 0:
+        if "overflowed its stack" in (p.stdout or "") and indices:
+            raise HarnessAborted(args, sorted(set(indices)), (p.stdout or "")[-1500:])
         raise ToolError("zyconf %s failed (%d):\n%s" % (args[0], p.returncode, (p.stdout or "")[-4000:]))
     return p
 
